@@ -300,7 +300,11 @@ Definition p_chain (w : list Z) : option (chain * list Z) :=
 
 Inductive dop :=
 | OLoad (has_default : bool) (cs : list chain)          (* [1; default; chains]  obs [ok] *)
-| OLook (wildcard : bool) (dst src : addr) (port : Z).   (* [2; wildcard; dst; src; port]  obs [kind; id] *)
+| OLook (wildcard : bool) (dst src : addr) (port : Z)    (* [2; wildcard; dst; src; port]  obs [kind; id] *)
+| OAccept (wildcard : bool) (dst src : addr) (port : Z).
+  (* [3; wildcard; dst zoned; src zoned; dst; src; port]  the connection goes through the real
+     listenerWrapper.Accept(); the TCPAddrs may carry an IPv6 zone, which is not part of the
+     address.  obs [0; id] | [1; 0] | [5; 0] connection closed (no match or tie) | [4; 0] *)
 
 Definition p_bool (x : Z) : option bool :=
   if x =? 0 then Some false else if x =? 1 then Some true else None.
@@ -321,6 +325,16 @@ Definition decode_op (op : word) : option dop :=
       | _ => None
       end
     | _, _ => None
+    end
+  | 3 :: wc :: zd :: zs :: w =>
+    match p_bool wc, p_bool zd, p_bool zs, p_addr w with
+    | Some b, Some _, Some _, Some (dst, w1) =>
+      match p_addr w1 with
+      | Some (src, [port]) =>
+        if (port <? 0) || (port >? 65535) then None else Some (OAccept b (unmap dst) (unmap src) port)
+      | _ => None
+      end
+    | _, _, _, _ => None
     end
   | _ => None
   end.
@@ -352,6 +366,17 @@ Definition look_word (st : state) (wc : bool) (dst src : addr) (port : Z) : word
   | Some (m, hd) => res_word (lookup m hd wc dst src port)
   end.
 
+(* Accept(): a lookup error closes the connection *)
+Definition accept_word (st : state) (wc : bool) (dst src : addr) (port : Z) : word :=
+  match st with
+  | None => [4; 0]
+  | Some (m, hd) => match lookup m hd wc dst src port with
+                    | RChain id => [0; id]
+                    | RDefault => [1; 0]
+                    | _ => [5; 0]
+                    end
+  end.
+
 Fixpoint run_d (st : state) (ops : list dop) : list word :=
   match ops with
   | [] => []
@@ -361,6 +386,7 @@ Fixpoint run_d (st : state) (ops : list dop) : list word :=
     | None => [0] :: run_d None r
     end
   | OLook wc dst src port :: r => look_word st wc dst src port :: run_d st r
+  | OAccept wc dst src port :: r => accept_word st wc dst src port :: run_d st r
   end.
 
 Definition run (ops : list word) : option (list word) :=
@@ -396,6 +422,8 @@ Fixpoint main_clauses (sync : bool) (st : state) (ops : list dop) (obs : list wo
     end
   | OLook wc dst src port :: r, o :: r' =>
     (1, 0, negb sync || word_eqb o (look_word st wc dst src port)) :: main_clauses sync st r r'
+  | OAccept wc dst src port :: r, o :: r' =>
+    (1, 1, negb sync || word_eqb o (accept_word st wc dst src port)) :: main_clauses sync st r r'
   | _, _ => [(3, -1, false)]
   end.
 
